@@ -174,19 +174,19 @@ Theorem C02_tidy_fix_preserves_trace_stage2 : forall bi ns p, u2_block p = true 
 Proof. exact tidy_fix_preserves_trace_stage2. Qed.
 Print Assumptions C02_tidy_fix_preserves_trace_stage2.
 
-(* what fragment 2 excludes (beyond F34 / F31 / duplicate items above), one witness each *)
+(* what fragment 2 excludes (beyond F34 / F31 / duplicate items above) *)
 Local Open Scope N_scope.
-(* a function-local import used only by a nested function defined before it: the nested read is deferred, and f's
-   scope is popped - its unused checkers reported - before the deferred checks run
+(* C05a (repaired, fixes/C05a-local-import-deferred-unused-check.diff): a function-local import used only by a nested function
+   defined before it - the unused imports of a scope that is left are now reported after the deferred load checks
      def f():
          def g(): return os
          import os
          g()                                                                                        *)
 Definition W_local_import : program :=
   [SDef 1 90 [] P0 None [SDef 2 91 [] P0 None [SExpr 3 (ELoad 92 [])]; SImport 4 [([92], None)]; SExpr 5 (EOp [ELoad 91 []])]].
-Theorem C02_unused_sound_refuted_local_import : ~ unused_sound_at W_local_import.
-Proof. unfold unused_sound_at. intro H. apply (H 4%nat ([92], [92])) with (ln := 3%nat) (n := 92); vm_compute; auto. Qed.
-Print Assumptions C02_unused_sound_refuted_local_import.
+Example C02_C05a_repaired : snd (finder [] [[]] true W_local_import) = [] /\
+  In (3%nat, 92, Bound (BImp 4 ([92], [92]))) (pysem [] [[]] W_local_import).
+Proof. vm_compute. auto. Qed.
 (* an import that shadows a builtin / namespace name, read in a function defined before it (F34 with the first binding
    coming from the namespace):   def f(): len.x ; import m as len                                   *)
 Definition W_shadow_builtin : program := [SDef 1 90 [] P0 None [SExpr 2 (ELoad 93 [94])]; SImport 3 [([95], Some 93)]].
